@@ -9,6 +9,9 @@
   MUSTCALL   into_inner, Writer::finish_block and Drop::drop (both arms) reach finish_block -> flush
              ... and when the flush inside into_inner fails the Err comes out: the sink is taken out on every way out of
              into_inner and Drop flushes only while the sink is there / no block write has failed      (found F29)
+  FAILED     ... every Ok return of serialize / push_serialized passes the count update (values whose encoding is empty
+             still count)
+  MUSTCALL   ... Drop's early return is exempted as the *edges* of the two reviewed tests, not as the shared return block
 It does NOT decide that the concatenated bytes are a valid file as a whole, nor crash points inside one sink write.
 """
 from ..lib import *
